@@ -79,6 +79,7 @@ def bLine (ws : List String) : String := Id.run do
         let shouldPanic := vals.length > rep
         if (r = "panic") ≠ shouldPanic then issues := issues ++ [s!"ORACLE C08 extend(reported {rep}, yields {vals.length}) returned {r}"]
       | .get i =>
+        if r = "panic" then issues := issues ++ [s!"ORACLE C08 get({i}) panicked (a lookup returns nothing or a completely written item)"]
         if r.endsWith "!badcols" then issues := issues ++ [s!"ORACLE C08 get({i}) returned an item whose matcher columns are not the ones its fill callback produced"]
         else if r ≠ "none" then
           if i ≥ finCount then issues := issues ++ [s!"ORACLE C08 get({i}) = {r} but only {finCount} indices were ever assigned"]
